@@ -653,6 +653,18 @@ def same_size_groups(rnd):
                 except UnicodeDecodeError:
                     pass
             groups.append(Case(c, kw, 'same-size-group' if auto else 'same-size-group-mask'))
+    # the SAME contents of different modes in several threads at once, again and again (a memo of the last content / mode / bytes
+    # that is written in two steps hands one content the other's analysis)
+    for _ in range(12):
+        pool = [content_for(rnd, m, rnd.randint(2, 9)) for m in rnd.sample([1, 2, 4, 8], 2)]
+        if isinstance(pool[1], bytes) and rnd.random() < 0.5:
+            try:
+                pool[1] = pool[1].decode('shift_jis')
+            except UnicodeDecodeError:
+                pass
+        kw = dict(mask=rnd.randrange(4), micro=False, error=rnd.choice('LMQH'))
+        for i in range(8):
+            groups.append(Case(pool[(i + (i // 4)) % 2], dict(kw), 'repeated-content-group'))
     return groups
 
 
